@@ -354,7 +354,7 @@ def make_execs(bdir, tier, rng):
 def run(pid, tier):
     t0 = time.time()
     rng = random.Random(vlib.seed())
-    bdir = vlib.scratch(pid)
+    bdir = vlib.scratch("%s_%d" % (pid, os.getpid()))      # concurrent runs of the same check do not share scratch
     verdict = vlib.Verdict(pid)
     try:
         mat, solm = model_checking(bdir, tier)
@@ -428,7 +428,7 @@ def run(pid, tier):
 
 
 def replay(pid, path):
-    bdir = vlib.scratch(pid + "_replay")
+    bdir = vlib.scratch("%s_replay_%d" % (pid, os.getpid()))
     try:
         drv = mxcommon.build(bdir)
         res = mxcommon.run_chunks(bdir, drv, mxcommon.load_replay(os.path.abspath(path)), "DenseTrace", tag="rp", nproc=1)
